@@ -43,6 +43,12 @@ class U3:
   def __radd__(self, o): return RB()
 class U4(U3):
   def __radd__(self, o): return RA()
+class U5(U2):      # inherits the reflected methods from an intermediate class
+  pass
+class U6(U1):      # a subclass that does not provide reflected methods at all
+  pass
+class U7(U5):
+  def __rsub__(self, o): return RA()
 class MyInt(int):
   def __radd__(self, o): return RB()
 class G:
@@ -60,7 +66,7 @@ OPERANDS = [
 ]
 # operands whose + / - results are RA (has .p) or RB (has .q) depending on forward / reflected dispatch,
 # including the "right operand is a subclass that overrides the reflected method" priority rule
-RESOPS = ["U1()", "U2()", "U3()", "U4()", "MyInt()", "1", "P()"]
+RESOPS = ["U1()", "U2()", "U3()", "U4()", "U5()", "U6()", "U7()", "MyInt()", "1", "P()"]
 BINOPS = ["+", "-", "*", "/", "//", "%", "**", "@", "<<", ">>", "&", "|", "^", "<", "<=", ">", ">=", "==", "!=", "in"]
 UNOPS = ["-", "+", "~", "not "]
 ARITH = {"+", "-", "*", "/"}
